@@ -64,6 +64,8 @@ def step_jobs(tier):
         # window at the bottom of the TTL range (MinTTL 1..3): tables indexed by TTL vs by TTL-MinTTL differ here
         J("sack", "Verif_Step_sack_arb", ["accepted-icmp", "rejected"], L=56, loosen=1, max=3, W=3),
         J("sack", "Verif_Step_sack_layout", ["accepted-sack", "rejected"], loosen=0, max=3, W=3, blocks=1),
+        # SACK option whose length byte is arbitrary (partial trailing blocks)
+        J("sack", "Verif_Step_sack_layout", ["accepted-sack", "rejected", "not-supported"], loosen=1, max=30, blocks=1, anylen=1),
     ]
     if tier == "quick":
         return q
@@ -91,6 +93,7 @@ def step_jobs(tier):
         J("udp", "Verif_Step_udp4_arb", None, L=60, maxQIHL=6, loosen=1),
         J("sack", "Verif_Step_sack_arb", None, L=48, maxDOff=6, loosen=1, max=30),
         J("sack", "Verif_Step_sack_layout", ["accepted-sack"], loosen=1, max=30, blocks=2),
+        J("sack", "Verif_Step_sack_layout", ["accepted-sack", "not-supported"], loosen=1, max=30, blocks=2, anylen=1),
         J("sack", "Verif_Step_sack_layout", ["accepted-sack"], loosen=0, max=255, blocks=1, ts=1),
         J("udp", "Verif_Step_udp6_arb", None, L=96, min=127, loosen=0, W=3),
     ]
@@ -156,7 +159,9 @@ spec("C02", ["C02/", "send/", "setup/"], c02_jobs("quick"), c02_jobs("thorough")
 
 
 # ---- C05: RTT fidelity ----
-spec("C05", ["C05/"], step_jobs("quick") + [
+# "never measured against a different probe's send time" presupposes that the reply is credited to the probe it answers:
+# the attribution obligation C01/genuine is evaluated under C05 as well
+spec("C05", ["C05/", "C01/genuine"], step_jobs("quick") + [
         J("traceroute", "Verif_C20_e2e", ["end"], protocol="udp", method=""),
         J("common", "Verif_C05_ms_zero", ["end"], bits=36, solver="cvc5"),
      ], step_jobs("thorough") + [
@@ -231,9 +236,15 @@ def c19_jobs(tier):
     jobs.append(J("server", "Verif_C19_query", ["rejected"], url="/traceroute?max-ttl=3", wantErr=1))
     # no crash at the extremes: driver construction + first/last probe
     jobs += [J("sack", "Verif_C06_sack", ["end"], max=255), J("sack", "Verif_C06_sack", ["end"], max=1), J("icmp", "Verif_C06_icmp", ["end"]), J("udp", "Verif_C06_udp", ["end"]), J("tcp", "Verif_C06_tcp", ["end"])]
+    # the whole request path (real RunTraceroute incl. its default-port substitution) at the port boundaries
+    for proto, meth in (("udp", "syn"), ("tcp", "syn")):
+        for port in (-65536, -1, 65536, 70000):
+            jobs.append(J("traceroute", "Verif_C19_request", ["rejected"], protocol=proto, method=meth, port=port, no_replay=True, max_preempt=1))
+        for port in (0, 1, 443, 65535):
+            jobs.append(J("traceroute", "Verif_C19_request", ["accepted"], protocol=proto, method=meth, port=port, no_replay=True, max_preempt=1))
     return jobs
 spec("C19", ["C19/", "panic", "send/", "setup/"], c19_jobs("quick"), c19_jobs("thorough"),
-     {"ttl bounds": "MinTTL and MaxTTL unconstrained 64-bit integers (negative, 0, 256, 65536+k all inside)", "ports": "-1, 0 (default), 1, 8080, 65535, 65536 and literal :0 / :65536",
+     {"ttl bounds": "MinTTL and MaxTTL unconstrained 64-bit integers (negative, 0, 256, 65536+k all inside)", "ports": "-1, 0 (default), 1, 8080, 65535, 65536 and literal :0 / :65536; through the real RunTraceroute: -65536, -1, 0, 1, 443, 65535, 65536, 70000",
       "protocols/methods": "udp, icmp, tcp x {'', syn, sack, prefer_sack}; unknown protocol and method strings", "targets": "IPv4 and IPv6 literals, bracketed, with and without port",
       "boundary": "the four protocol runners are observed at their entry (seam): the configuration object they receive is compared with the request"},
      ["DNS names as targets", "cobra flag parsing", "what happens below the runner entry is covered by the driver harnesses (C06/C09) and TracerouteParams.validate"],
@@ -276,7 +287,9 @@ par_q = [E("Verif_Engine_parallel", ["returned"], W=1, replies=1), E("Verif_Engi
 # W=3 x replies=3 and the unbounded-preemption variants ran past an hour in the first trial and are not registered
 par_t = par_q + [E("Verif_Engine_parallel", ["returned"], W=2, replies=2, max_preempt=2), E("Verif_Engine_parallel", ["returned"], W=3, replies=2, waitSet=1, max_preempt=2),
                  E("Verif_Engine_parallel", ["returned"], W=2, replies=3, waitSet=1, timeoutPolls=3, max_preempt=2), E("Verif_Engine_parallel", ["returned"], W=3, replies=1, max_preempt=2)]
-ser_q = [E("Verif_Engine_serial", ["returned"], W=2, replies=2), E("Verif_Engine_serial", ["returned"], W=3, replies=2), E("Verif_Engine_serial", ["returned"], W=2, replies=2, min=254)]
+ser_q = [E("Verif_Engine_serial", ["returned"], W=2, replies=2), E("Verif_Engine_serial", ["returned"], W=3, replies=2), E("Verif_Engine_serial", ["returned"], W=2, replies=2, min=254),
+         # send delay longer than the per-TTL listening window (pacing must not be cut short by the window)
+         E("Verif_Engine_serial", ["returned"], W=2, replies=1, sendDelayMs=300, timeoutPolls=1)]
 ser_t = ser_q + [E("Verif_Engine_serial", ["returned"], W=3, replies=4, timeoutPolls=3), E("Verif_Engine_serial", ["returned"], W=4, replies=3)]
 can_q = [E("Verif_Engine_cancel", ["cancelled-before-return"], W=2, parallel=1, max_preempt=2), E("Verif_Engine_cancel", ["cancelled-before-return"], W=2, parallel=0),
          E("Verif_Engine_cancel", ["cancelled-before-return"], W=2, parallel=0, replies=1)]
@@ -295,7 +308,7 @@ SPECS["C03"]["tiers"]["thorough"]["jobs"] += par_t + ser_t
 SPECS["C03"]["bounds"].update(ENGINE_BOUNDS)
 SPECS["C03"]["outside_bounds"] = ["longer tables"] + ENGINE_OUTSIDE
 SPECS["C03"]["models_used"] = MODELS + ENGINE_MODELS
-SPECS["C06"]["tiers"]["quick"]["jobs"] += par_q + ser_q  # the min=254 jobs reach MaxTTL = 255 (uint8 loop counters)
+SPECS["C06"]["tiers"]["quick"]["jobs"] += par_q + ser_q + [E("Verif_Engine_parallel", ["returned"], W=2, replies=1, sendDelayMs=300, timeoutPolls=1, max_preempt=2)]  # the min=254 jobs reach MaxTTL = 255 (uint8 loop counters)
 SPECS["C06"]["tiers"]["thorough"]["jobs"] += par_t + ser_t
 SPECS["C06"]["bounds"].update(ENGINE_BOUNDS)
 SPECS["C06"]["outside_bounds"] = ["IP options on probes (none are generated)", "the UDP rule that a computed zero checksum is sent as 0xffff", "reported endpoints of the entry points (part (d)): not built yet"] + ENGINE_OUTSIDE
@@ -429,6 +442,20 @@ hs_t = hs_q + [J("sack", "Verif_C08_handshake", ["end"], 3600, flood=2, L=40)]
 SPECS["C08"]["tiers"]["quick"]["jobs"] += hs_q
 SPECS["C08"]["tiers"]["thorough"]["jobs"] += hs_t
 SPECS["C08"]["bounds"]["handshake flood"] = "the real ReadHandshake over a model capture handle that honours its read deadline: 1 (thorough 2) arbitrary IPv4 packets of 40-56 bytes that are not the awaited SYN-ACK, each arriving at once / halfway to the deadline / not before it; the call returns an error within its 500 ms window"
+# C08 "handshake and lookup timeouts included ... stalled HTTP or DNS responders": the enrichment and public-IP jobs of C18
+# also run under C08, judged on their C08/ obligations
+c08_aux_labels = ["C08/dns", "C08/http", "C08/publicip"]
+c08_aux = [dict(j, labels=c08_aux_labels) for j in SPECS["C18"]["tiers"]["quick"]["jobs"] if j["harness"] in ("Verif_C18_rdns", "Verif_C18_publicip")]
+SPECS["C08"]["tiers"]["quick"]["jobs"] += [j for j in c08_aux if j["params"].get("hops") != "2"]
+SPECS["C08"]["tiers"]["thorough"]["jobs"] += c08_aux
+SPECS["C08"]["bounds"]["auxiliary services"] = "reverse-DNS batch with resolvers that answer, fail or stall until the deadline they were handed (the batch takes at most one 5 s lookup timeout); public-IP discovery over the scripted HTTP client (every call carries a deadline, total time bounded by the per-provider budgets)"
+# C02 names the capture filters among its code areas: a filter that drops a genuine reply loses the hop just as a
+# matcher would. The filter-exactness and no-hidden-reply jobs of C12 therefore also run under C02.
+c02_filter_labels = ["C12/filter"]
+SPECS["C02"]["tiers"]["quick"]["jobs"] += [dict(j, labels=c02_filter_labels) for j in c12_q]
+SPECS["C02"]["tiers"]["thorough"]["jobs"] += [dict(j, labels=c02_filter_labels) for j in c12_t]
+SPECS["C02"]["bounds"]["filters"] = "the C12 jobs (program exactness on a symbolic 110-byte frame incl. IHL 5..15; matcher accepts => installed filter accepts) evaluated under C02 as well"
+SPECS["C02"]["outside_bounds"] = [o.replace("; filters in C12", "") for o in SPECS["C02"]["outside_bounds"]]
 frame_labels = ["C09/", "panic"]
 frame_q = [dict(J("packets", "Verif_C09_strip", ["error", "skipped", "payload"], N=24), labels=frame_labels)] + \
           [dict(J("packets", "Verif_C09_frame", ["end"] if f == "none" else ["bad", "nothing"], N=40, frames=1, filter=f, no_replay=True), labels=frame_labels) for f in ("icmp", "udp", "tcp", "synack", "none")]
